@@ -41,6 +41,21 @@ pub struct LinearKNNSearch<T, F: RealNumber, D: Distance<T, F>> {
     f: PhantomData<F>,
 }
 
+impl<T, F: RealNumber, D: Distance<T, F>> PartialEq for LinearKNNSearch<T, F, D> {
+    fn eq(&self, other: &Self) -> bool {
+        // same convention as the cover tree: the stored points coincide under the metric
+        if self.data.len() != other.data.len() {
+            return false;
+        }
+        for i in 0..self.data.len() {
+            if self.distance.distance(&self.data[i], &other.data[i]) != F::zero() {
+                return false;
+            }
+        }
+        true
+    }
+}
+
 impl<T, F: RealNumber, D: Distance<T, F>> LinearKNNSearch<T, F, D> {
     /// Initializes algorithm.
     /// * `data` - vector of data points to search for.
